@@ -190,7 +190,7 @@ def case_strategy(draw):
                  give_size=draw(st.booleans()), ikind=draw(st.sampled_from(["list", "imat", "tuple"])))
     elif op == "sparsefn":
         c.update(src=draw(st.one_of(dn_st(), sp_st())), blocks=draw(st.booleans()),
-                 other=draw(st.one_of(dn_st(), sp_st())))
+                 other=draw(st.one_of(dn_st(), sp_st())), tc=draw(st.sampled_from([None, None, "d", "z"])))
     elif op == "blockgrid":
         hs = draw(st.lists(st.integers(0, 3), min_size=1, max_size=3))
         ws = draw(st.lists(st.integers(0, 3), min_size=1, max_size=3))
@@ -511,6 +511,24 @@ def oracle(case, stats=None):
             oth = mk_sp(case["other"]) if "I" in case["other"] else mk_dn(case["other"])
             out, R = both(lambda: sparse([[src], [oth]]), lambda: matrix([[matrix(src)], [matrix(oth)]]), "sparse([[A],[B]])",
                           expect_type="sparse")
+        elif case.get("tc"):
+            # "tc is the typecode, 'd' or 'z'": the same for a sparse and for a dense argument
+            tcx = case["tc"]
+            if tcx == "d" and src.typecode == "z":
+                # a complex matrix cannot be converted to 'd': refused (an empty one may go either way)
+                try:
+                    R = sparse(src, tc=tcx)
+                except TypeError:
+                    R = None
+                if R is not None and (len(matrix(src)) > 0 or R.typecode != "d"):
+                    raise Violation("sparse(A, tc='d') with a complex %s A returned a %r matrix" % (type(src).__name__, R.typecode))
+                if stats is not None:
+                    stats.evaluated(case, False, labels + ["outcome:refused"])
+                return
+            out, R = both(lambda: sparse(src, tc=tcx), lambda: matrix(src, tc=tcx), "sparse(A, tc=%r) with a %s %r A" % (
+                tcx, type(src).__name__, src.typecode), expect_type="sparse")
+            if out == "ok" and R.typecode != tcx:
+                raise Violation("sparse(A, tc=%r) with a %s %r A returned typecode %r" % (tcx, type(src).__name__, src.typecode, R.typecode))
         else:
             out, R = both(lambda: sparse(src), lambda: matrix(src), "sparse(A)", expect_type="sparse")
         if out == "ok" and any(v == 0 for v in R.V):
